@@ -84,8 +84,13 @@ fn constructors(t: &mut Tape, ctx: &mut Ctx, ms: usize, ml: usize) -> CheckResul
     let sum: usize = sizes.iter().sum();
     // plant at most one flaw
     let mut cod = sum + 1;
-    let flaw = t.weighted(&[3, 1, 1, 1, 1]);
+    let flaw = t.weighted(&[3, 1, 1, 1, 1, 1]);
     match flaw {
+        // any codomain that still admits the sizes (far too small or far too large included)
+        5 => {
+            let lo = sizes.iter().copied().max().map_or(0, |m| m + 1);
+            cod = t.range(lo, sum + 4);
+        }
         1 if !sizes.is_empty() => {
             let i = t.choice(sizes.len());
             sizes[i] += 1;
